@@ -93,14 +93,82 @@ type pkgFacts struct {
 	nilTolF map[string]string              // field name -> nil-tolerant struct type owning it
 }
 
+// canonText selects the canonical printer (false only while migrating an old accounting table)
+var canonText = true
+
 func exprText(fset *token.FileSet, e ast.Node) string {
 	if e == nil {
 		return ""
+	}
+	if x, ok := e.(ast.Expr); ok && canonText {
+		if x == nil {
+			return ""
+		}
+		return canon(fset, x, 0)
 	}
 	var b bytes.Buffer
 	printer.Fprint(&b, fset, e)
 	s := strings.Join(strings.Fields(b.String()), " ")
 	return s
+}
+
+// canon prints an expression canonically: one space around every binary operator, parentheses
+// exactly where precedence needs them (source parentheses and spacing do not matter).  `outer` is
+// the precedence of the context (0 = none).
+func canon(fset *token.FileSet, e ast.Expr, outer int) string {
+	switch v := e.(type) {
+	case nil:
+		return ""
+	case *ast.ParenExpr:
+		return canon(fset, v.X, outer)
+	case *ast.Ident:
+		return v.Name
+	case *ast.BasicLit:
+		return v.Value
+	case *ast.BinaryExpr:
+		p := v.Op.Precedence()
+		t := canon(fset, v.X, p) + " " + v.Op.String() + " " + canon(fset, v.Y, p+1)
+		if p < outer {
+			return "(" + t + ")"
+		}
+		return t
+	case *ast.UnaryExpr:
+		return v.Op.String() + canon(fset, v.X, 6)
+	case *ast.StarExpr:
+		return "*" + canon(fset, v.X, 6)
+	case *ast.SelectorExpr:
+		return canon(fset, v.X, 7) + "." + v.Sel.Name
+	case *ast.IndexExpr:
+		return canon(fset, v.X, 7) + "[" + canon(fset, v.Index, 0) + "]"
+	case *ast.SliceExpr:
+		t := canon(fset, v.X, 7) + "[" + canon(fset, v.Low, 0) + ":" + canon(fset, v.High, 0)
+		if v.Slice3 {
+			t += ":" + canon(fset, v.Max, 0)
+		}
+		return t + "]"
+	case *ast.TypeAssertExpr:
+		if v.Type == nil {
+			return canon(fset, v.X, 7) + ".(type)"
+		}
+		return canon(fset, v.X, 7) + ".(" + canon(fset, v.Type, 0) + ")"
+	case *ast.CallExpr:
+		var args []string
+		for _, a := range v.Args {
+			args = append(args, canon(fset, a, 0))
+		}
+		t := canon(fset, v.Fun, 7) + "(" + strings.Join(args, ", ")
+		if v.Ellipsis.IsValid() {
+			t += "..."
+		}
+		return t + ")"
+	case *ast.ArrayType:
+		return "[" + canon(fset, v.Len, 0) + "]" + canon(fset, v.Elt, 0)
+	case *ast.KeyValueExpr:
+		return canon(fset, v.Key, 0) + ": " + canon(fset, v.Value, 0)
+	}
+	var b bytes.Buffer
+	printer.Fprint(&b, fset, e)
+	return strings.Join(strings.Fields(b.String()), " ")
 }
 
 func collectFacts(files map[string]*ast.File, fset *token.FileSet) *pkgFacts {
@@ -485,12 +553,21 @@ func (c *fnCtx) bindFieldList(fl *ast.FieldList) {
 	}
 }
 
-// add records a site.  The key is <func>#<kind>#<expression text>#<ordinal among equal texts in
-// that function>: inserting or removing OTHER sites in the same function does not shift it.
-func (c *fnCtx) add(kind string, n ast.Node, guard string) {
+// add records a site.  The key is <func>#<kind>#<NORMALISED OPERAND>#<ordinal among equal keys in
+// that function>.  The operand is the expression the panic depends on, printed canonically: the
+// divisor for division / modulo (so `x = x % d` and `x %= d` have the same key), base[index] for
+// index sites, the sliced expression with its bounds, the dereferenced selector, expr.(Type) for
+// assertions, the call for precondition sites — never the surrounding statement.  Inserting,
+// removing or reformatting OTHER code of the function does not change it.
+func (c *fnCtx) add(kind string, n ast.Node, guard string) { c.addKeyed(kind, n, n, guard) }
+
+func (c *fnCtx) addKeyed(kind string, n, operand ast.Node, guard string) {
 	pos := c.pf.fset.Position(n.Pos())
 	full := exprText(c.pf.fset, n)
 	kt := full
+	if canonText {
+		kt = exprText(c.pf.fset, operand)
+	}
 	if len(kt) > 100 {
 		kt = kt[:100]
 	}
@@ -812,11 +889,11 @@ func (c *fnCtx) walk(body ast.Node) {
 			c.visitSlice(v, stack)
 		case *ast.BinaryExpr:
 			if (v.Op == token.QUO || v.Op == token.REM) && !c.isConst(v.Y) {
-				c.add(kDivide, v, c.guardFor(stack, v.Pos(), []string{exprText(fset, v.Y)}))
+				c.addKeyed(kDivide, v, v.Y, c.guardFor(stack, v.Pos(), []string{exprText(fset, v.Y)}))
 			}
 		case *ast.AssignStmt:
 			if (v.Tok == token.QUO_ASSIGN || v.Tok == token.REM_ASSIGN) && len(v.Rhs) == 1 && !c.isConst(v.Rhs[0]) {
-				c.add(kDivide, v, c.guardFor(stack, v.Pos(), []string{exprText(fset, v.Rhs[0])}))
+				c.addKeyed(kDivide, v, v.Rhs[0], c.guardFor(stack, v.Pos(), []string{exprText(fset, v.Rhs[0])}))
 			}
 		case *ast.SelectorExpr:
 			c.visitSelector(v, stack)
@@ -1018,7 +1095,9 @@ func funcName(pkg string, d *ast.FuncDecl) string {
 	return pkg + "." + name
 }
 
-func extractPanicSites() ([]panicSite, error) {
+func extractPanicSites() ([]panicSite, error) { return extractPanicSitesOpt(true) }
+
+func extractPanicSitesOpt(sorted bool) ([]panicSite, error) {
 	var sites []panicSite
 	for _, pkg := range panicPackages {
 		dir := filepath.Join(*repo, pkg)
@@ -1086,6 +1165,9 @@ func extractPanicSites() ([]panicSite, error) {
 			}
 		}
 	}
+	if !sorted {
+		return sites, nil
+	}
 	sort.SliceStable(sites, func(i, j int) bool { return sites[i].key < sites[j].key })
 	for i := 1; i < len(sites); i++ {
 		if sites[i].key == sites[i-1].key {
@@ -1101,7 +1183,32 @@ func strId(s string) string {
 	return n.String()
 }
 
+// writeKeyMap (env C07_KEYMAP=<file>): old key/guard (statement text, go/printer spacing) → new
+// key/guard, one tab-separated line per site, to migrate an accounting table once.
+func writeKeyMap(path string) error {
+	canonText = false
+	oldS, err := extractPanicSitesOpt(false)
+	canonText = true
+	if err != nil {
+		return err
+	}
+	newS, err := extractPanicSitesOpt(false)
+	if err != nil || len(oldS) != len(newS) {
+		return fmt.Errorf("key map: %v (%d vs %d sites)", err, len(oldS), len(newS))
+	}
+	var b bytes.Buffer
+	for i := range oldS {
+		fmt.Fprintf(&b, "%s\t%s\t%s\t%s\n", oldS[i].key, newS[i].key, oldS[i].guard, newS[i].guard)
+	}
+	return os.WriteFile(path, b.Bytes(), 0o644)
+}
+
 func genPanicSites() ([]byte, error) {
+	if p := os.Getenv("C07_KEYMAP"); p != "" {
+		if err := writeKeyMap(p); err != nil {
+			return nil, err
+		}
+	}
 	sites, err := extractPanicSites()
 	if err != nil {
 		return nil, err
